@@ -13,7 +13,10 @@
   all variants `Boxed`; an enum that is **in progress** → `false` (since /repo e715c2f; before that
   fix it answered `true`, which conflated `Cons(Nil)` with `Nil` — C01-F1 / C12-F3).  The answer
   still depends on whether the referenced type is done or in progress, i.e. on the demand order.
-Only enums are modelled (a struct field type always permits; not needed for the witness).
+  A *struct* (class with fields; also closure contexts and tuples) is always a heap pointer: done or
+  in progress it permits (`names.contains(t) && !enum_type_names_in_progress.contains(t)`, and
+  `TypeDefinitionMappings::Struct(_) => true`).
+* struct definitions (lines 573-579): the field types are rewritten (demanded) left to right.
 -/
 namespace SamVerif.Layout
 
@@ -28,12 +31,23 @@ inductive VLayout where
   | boxed
   deriving Repr, DecidableEq
 
-/-- enum name ↦ list of variants (field types) -/
-abbrev Defs := List (Nat × List (List Ty))
+/-- a type definition: an enum with its variants (field types) or a struct with its field types -/
+inductive Def where
+  | enum (variants : List (List Ty))
+  | struct (fields : List Ty)
+  deriving Repr, DecidableEq
+
+abbrev Defs := List (Nat × Def)
+
+/-- a finished definition: the variant layouts of an enum, or a struct (always a pointer) -/
+inductive DLayout where
+  | enumL (vs : List VLayout)
+  | structL
+  deriving Repr, DecidableEq
 
 structure St where
   names : List Nat                       -- specialized_type_definition_names
-  done : List (Nat × List VLayout)       -- specialized_type_definitions
+  done : List (Nat × DLayout)            -- specialized_type_definitions
   deriving Repr, DecidableEq
 
 def lookup {β : Type} (l : List (Nat × β)) (n : Nat) : Option β :=
@@ -41,13 +55,21 @@ def lookup {β : Type} (l : List (Nat × β)) (n : Nat) : Option β :=
   | [] => none
   | (k, v) :: rest => if k = n then some v else lookup rest n
 
-/-- lines 634-663 -/
-def permit (st : St) : Ty → Bool
+def isStruct (defs : Defs) (n : Nat) : Bool :=
+  match lookup defs n with
+  | some (.struct _) => true
+  | _ => false
+
+/-- lines 638-670 -/
+def permit (defs : Defs) (st : St) : Ty → Bool
   | .int => false
   | .id n =>
     match lookup st.done n with
-    | none => false      -- in progress (or unknown): an enum still being decided may become i31/unboxed
-    | some vs => vs.all (· == .boxed)
+    | some (.enumL vs) => vs.all (· == .boxed)
+    | some .structL => true
+    -- in progress: a struct is a pointer, an enum still being decided may become i31/unboxed;
+    -- unknown name: false
+    | none => st.names.contains n && isStruct defs n
 
 structure LoopSt where
   out : List VLayout
@@ -78,16 +100,17 @@ def demandFields (rec : St → Nat → St) (s : St) (fields : List Ty) : St :=
     | .id m => rec s m) s
 
 /-- `type_permit_enum_boxed_optimization(mapping_types[1])` for the variant's first field. -/
-def firstBit (st : St) : List Ty → Bool
-  | t :: _ => permit st t
+def firstBit (defs : Defs) (st : St) : List Ty → Bool
+  | t :: _ => permit defs st t
   | [] => false
 
 /-- The loop over the variants as far as it touches the specialisation state: per variant, demand
 the field types, then evaluate the permit bit. Returns the state and `(arity, bit)` per variant. -/
-def demandVariants (rec : St → Nat → St) (st : St) (variants : List (List Ty)) : St × List (Nat × Bool) :=
+def demandVariants (defs : Defs) (rec : St → Nat → St) (st : St) (variants : List (List Ty)) :
+    St × List (Nat × Bool) :=
   variants.foldl (fun acc fields =>
     let st' := demandFields rec acc.1 fields
-    (st', acc.2 ++ [(fields.length, firstBit st' fields)])) (st, [])
+    (st', acc.2 ++ [(fields.length, firstBit defs st' fields)])) (st, [])
 
 /-- `rewrite_type` on `Id n` (fuel = recursion depth; `defs.length + 1` always suffices because
 every recursive call first adds a new name to `names`). -/
@@ -97,15 +120,18 @@ def demand (defs : Defs) : Nat → St → Nat → St
     if st.names.contains n then st else
     match lookup defs n with
     | none => st
-    | some variants =>
-      let r := demandVariants (demand defs fuel) { st with names := n :: st.names } variants
-      { r.1 with done := (n, variantLoop r.2) :: r.1.done }
+    | some (.enum variants) =>
+      let r := demandVariants defs (demand defs fuel) { st with names := n :: st.names } variants
+      { r.1 with done := (n, .enumL (variantLoop r.2)) :: r.1.done }
+    | some (.struct fields) =>
+      let st' := demandFields (demand defs fuel) { st with names := n :: st.names } fields
+      { st' with done := (n, .structL) :: st'.done }
 
 /-- Specialise from the given roots in order (each root = a type first mentioned by a `main`). -/
 def layoutAll (defs : Defs) (roots : List Nat) : St :=
   roots.foldl (fun st r => demand defs (defs.length + 1) st r) { names := [], done := [] }
 
-def layoutOf (defs : Defs) (roots : List Nat) (n : Nat) : Option (List VLayout) :=
+def layoutOf (defs : Defs) (roots : List Nat) (n : Nat) : Option DLayout :=
   lookup (layoutAll defs roots).done n
 
 end SamVerif.Layout
